@@ -87,7 +87,11 @@ def obj_setitem(it, o, idx, v):
 
 
 def obj_iter(it, o):
-    return NotImplemented
+    h = OBJ_ITER.get(o.tag)
+    return h(it, o) if h else NotImplemented
+
+
+OBJ_ITER = {}
 
 
 OBJ_ATTR, OBJ_BINOP, OBJ_GETITEM, OBJ_SETITEM = {}, {}, {}, {}
